@@ -248,6 +248,9 @@ class DDLParser(Parser, Dialects):
 
         if t.type == "ALTER":
             self.lexer.is_alter = True
+        if t.type == "COMMA" and self.lexer.lp_open == 1 and self.lexer.is_table:
+            # a comma between column definitions ends the CHECK expression of the previous one
+            self.lexer.check = False
         if t.type == "LIKE":
             self.lexer.is_like = True
         elif t.type in ["TYPE", "DOMAIN", "TABLESPACE"]:
